@@ -39,10 +39,7 @@ Lemma regs_with_top_next s h : regs (with_top_next s h) = regs s. Proof. reflexi
 Ltac rr := autorewrite with regs; try reflexivity.
 
 Lemma regs_alloc p s : regs (snd (alloc p s)) = regs s.
-Proof.
-  unfold alloc. destruct p; [reflexivity|]. destruct (get_task _ s); [|reflexivity].
-  cbn [snd]. apply regs_set_task.
-Qed.
+Proof. reflexivity. Qed.
 
 Lemma regs_create p f s : regs (snd (create p f s)) = regs s.
 Proof.
